@@ -290,7 +290,7 @@ pub async fn request_certificate(
 	drop(data_builder);
 
 	// Never replace the current certificate by something that is not a certificate for our key
-	let new_crt = X509Certificate::from_pem(crt.as_bytes())
+	let new_crt = X509Certificate::from_pem_chain(crt.as_bytes())
 		.map_err(|e| e.prefix("invalid certificate received"))?;
 	if !new_crt
 		.inner_cert
